@@ -2,7 +2,7 @@ from checks._world_common import ASSUMPTIONS, COMPONENTS, make, simplify_knobs, 
 
 PROP = "C01"
 LEVEL = "exploration"
-RUNS = {"quick": 3000, "thorough": 120000}
+RUNS = {"quick": 6000, "thorough": 120000}
 BUDGET_S = {"quick": 50, "thorough": 840}
 CHUNK = 50
 RULE = ("One evaluation = one seeded history on a generated workflow (1-8 targets; container shapes str/list/nested/dict/dict-with-empty-group; path spellings plain, ./x, zz/../x, absolute; spec hashing on in half of the runs) against a simulated Slurm/SGE/LSF: initial per-file presence and ages (ties by construction on a coarse timestamp grid of 1/1024..2 s), gwf run / job start / finish (clock-skewed nodes) / source modification / output deletion / single-file touch / spec edit, interleaved with `gwf status`. Oracle at every status: for each target whose latest job is finished-ok or unknown and whose dependencies are complete, reported status == (M_stale ? shouldrun : completed) with M_stale the statement written out over the set of declared paths and the oracle's own hash records. Non-trivial = at least one file-based decision was checked; distinct = different event-log digest. Sampling, not the bounded-exhaustive enumeration the property text mentions.")
